@@ -59,16 +59,19 @@ VARIABLES sc,       \* the scenario [edges, kind, flow]
           pos,      \* values filled so far
           cells,    \* cell -> positions of the values its copy of the analysis was filled with
           last,     \* position of the value whose context SplitIntoBins keeps (_cur_context), 0: none
+          hctx,     \* _cur_context itself: the snapshot (deep copy) of that value's context
+          vctx,     \* the context objects of the flow values (inner elements may write into them)
           phase,    \* "fill" | "compute" | "iter" | "done"
           out,      \* histograms yielded by compute(): sequence of functions cell -> result
           it        \* values yielded by IterateBins over out[1]
-vars == <<sc, pos, cells, last, phase, out, it>>
+vars == <<sc, pos, cells, last, hctx, vctx, phase, out, it>>
 
 edges == sc.edges
 flow == sc.flow
 Init == /\ sc \in Scenarios
         /\ pos = 0 /\ last = 0 /\ phase = "fill" /\ out = <<>> /\ it = <<>>
         /\ cells = [idx \in Cells(sc.edges) |-> <<>>]          \* init_bins(edges, seq, deepcopy=True)
+        /\ hctx = Ctx(0, 0) /\ vctx = [i \in 1..Len(sc.flow) |-> ArrivingCtx(sc.flow, i)]
 
 Route == CellOf(flow[pos + 1].x, edges)                        \* get_bin_on_value
 \* the walk through self.bins: the first dimension whose index is outside decides
@@ -76,31 +79,34 @@ FirstOut(idx) == CHOOSE d \in 1..Len(edges) : ~(idx[d] >= 1 /\ idx[d] <= NCells(
                                                /\ \A d2 \in 1..(d - 1) : idx[d2] >= 1 /\ idx[d2] <= NCells(edges[d2])
 Filling == phase = "fill" /\ pos < Len(flow)
 FillInside == /\ Filling /\ IsCell(Route, edges)
-              /\ cells' = [cells EXCEPT ![Route] = Append(@, pos + 1)]      \* subarr.fill(val)
+              /\ hctx' = vctx[pos + 1]                                       \* context = copy.deepcopy(context), first
+              /\ cells' = [cells EXCEPT ![Route] = Append(@, pos + 1)]      \* subarr.fill(val): the cell's sequence runs,
+              /\ vctx' = IF Mutates(sc.kind) /\ flow[pos + 1].h              \* its pre-element may write into the context
+                         THEN [vctx EXCEPT ![pos + 1].mut = pos + 1] ELSE vctx
               /\ last' = pos + 1 /\ pos' = pos + 1
               /\ UNCHANGED <<sc, phase, out, it>>
 FillUnderflow == /\ Filling /\ ~IsCell(Route, edges) /\ Route[FirstOut(Route)] = 0     \* if ind < 0: return
-                 /\ pos' = pos + 1 /\ UNCHANGED <<sc, cells, last, phase, out, it>>
+                 /\ pos' = pos + 1 /\ UNCHANGED <<sc, cells, last, hctx, vctx, phase, out, it>>
 FillOverflow == /\ Filling /\ ~IsCell(Route, edges) /\ Route[FirstOut(Route)] # 0      \* except IndexError: return
-                /\ pos' = pos + 1 /\ UNCHANGED <<sc, cells, last, phase, out, it>>
+                /\ pos' = pos + 1 /\ UNCHANGED <<sc, cells, last, hctx, vctx, phase, out, it>>
 StartCompute == /\ phase = "fill" /\ pos = Len(flow)
-                /\ phase' = "compute" /\ UNCHANGED <<sc, pos, cells, last, out, it>>
+                /\ phase' = "compute" /\ UNCHANGED <<sc, pos, cells, last, hctx, vctx, out, it>>
 \* every cell's own generator: cell.compute()
 CellRes(idx) == InnerSem(sc.kind, flow, cells[idx])
 \* next(generators): one more result from every cell, or StopIteration from the shortest
 ComputeNext == /\ phase = "compute" /\ \A idx \in Cells(edges) : Len(CellRes(idx)) > Len(out)
                /\ out' = Append(out, [idx \in Cells(edges) |-> CellRes(idx)[Len(out) + 1]])
-               /\ UNCHANGED <<sc, pos, cells, last, phase, it>>
+               /\ UNCHANGED <<sc, pos, cells, last, hctx, vctx, phase, it>>
 ComputeStop == /\ phase = "compute" /\ \E idx \in Cells(edges) : Len(CellRes(idx)) <= Len(out)
                /\ phase' = IF out = <<>> THEN "done" ELSE "iter"
-               /\ UNCHANGED <<sc, pos, cells, last, out, it>>
+               /\ UNCHANGED <<sc, pos, cells, last, hctx, vctx, out, it>>
 \* IterateBins.run over the first histogram: itertools.product over the cell indices
 IterNext == /\ phase = "iter" /\ Len(it) < Len(CellSeq(edges))
             /\ LET idx == CellSeq(edges)[Len(it) + 1] IN
                it' = Append(it, [idx |-> idx, e |-> CellEdges(idx, edges), content |-> out[1][idx]])
-            /\ UNCHANGED <<sc, pos, cells, last, phase, out>>
+            /\ UNCHANGED <<sc, pos, cells, last, hctx, vctx, phase, out>>
 IterEnd == /\ phase = "iter" /\ Len(it) = Len(CellSeq(edges))
-           /\ phase' = "done" /\ UNCHANGED <<sc, pos, cells, last, out, it>>
+           /\ phase' = "done" /\ UNCHANGED <<sc, pos, cells, last, hctx, vctx, out, it>>
 Next == FillInside \/ FillUnderflow \/ FillOverflow \/ StartCompute \/ ComputeNext \/ ComputeStop \/ IterNext \/ IterEnd
 Spec == Init /\ [][Next]_vars
 Done == phase = "done"
@@ -133,6 +139,12 @@ Expected == SIBSem(sc.kind, edges, flow)
 ComputeZip == phase \in {"iter", "done"} => out = Expected
 OutIsPrefix == Len(out) <= Len(Expected) /\ out = SubSeq(Expected, 1, Len(out))
 LastIsLastInside == phase # "fill" => last = LastInside(flow, edges, Len(flow))
+\* the histograms' context: the last inside value's context as it arrived - nothing an inner element wrote
+HistContext == /\ hctx.mut = 0
+               /\ phase # "fill" => hctx = HistCtxSem(edges, flow)
+\* the flow values' own contexts: changed only by the inner element of the cell they were filled into
+FlowContexts == /\ phase # "fill" => vctx = FlowCtxSem(sc.kind, edges, flow)
+                /\ \A i \in 1..Len(flow) : vctx[i].src = ArrivingCtx(flow, i).src /\ (i > pos => vctx[i] = ArrivingCtx(flow, i))
 \* IterateBins: every cell once, with its own edges and content
 IterOnceEach == (phase = "done" /\ out # <<>>) =>
                   /\ it = IterSem(out[1], edges)
@@ -155,7 +167,7 @@ NestAll(hs) == [k \in 1..Len(hs) |-> Nest(hs[k], edges)]
 Emitted == Done => PrintT(ToJson([
    edges |-> edges, kind |-> sc.kind, flow |-> flow,
    route |-> [i \in 1..Len(flow) |-> CellOf(flow[i].x, edges)],
-   hists |-> NestAll(out), last |-> last,
+   hists |-> NestAll(out), last |-> last, hctx |-> hctx, vctx |-> vctx,
    iter |-> it,
    maps |-> IF out = <<>> THEN <<>>
             ELSE [m \in {"tag", "dup", "drop", "seen"} |-> NestAll(MapSem(m, out[1], edges))]]))
